@@ -552,6 +552,12 @@ func (t *Tracer) execIf(fr *Frame, i *ssa.If, st State, k func(State, []Ref)) {
 		if t.Spec.Branch != nil {
 			t.cur = st2
 			evs := t.Spec.Branch(t, fr, i, d)
+			if fr.Parent != nil && fr.Site != nil && fr.Clo == nil {
+				// a test on the helper's parameters is a test on the caller's arguments
+				if sub, _ := substParams(fr.Fn, fr.Site.Common().Args, i.Cond, 0); sub != i.Cond {
+					evs = append(evs, t.Spec.Branch(t, fr.Parent, &ssa.If{Cond: sub}, d)...)
+				}
+			}
 			if vcond != i.Cond {
 				// the same decision seen through the predicate helper's own expression
 				fake := &ssa.If{Cond: vcond}
@@ -1055,8 +1061,8 @@ func (t *Tracer) inline(fr *Frame, c ssa.CallInstruction, f *ssa.Function) bool 
 		}
 		top := TopLevel(t.Root)
 		if f.Pkg != nil && top.Pkg != nil && f.Pkg == top.Pkg && f.Object() != nil && (!f.Object().Exported() || isSmallPredicate(f)) && fr.Depth < 5 {
-			if t.Spec.Branch != nil && isParamPredicate(f) {
-				return true // what it decides is a fact about the caller's arguments; one block, cheap
+			if t.Spec.Branch != nil && (isParamPredicate(f) || isParamDecision(f)) {
+				return true // what it decides is a fact about the caller's arguments; cheap
 			}
 			return !isLogCall(c.Common()) && t.interesting(f, 0)
 		}
@@ -1084,7 +1090,7 @@ func (t *Tracer) DecidedInHelper(i *ssa.If) bool {
 	if sf.Object().Exported() && !isSmallPredicate(sf) {
 		return false // not descended into: its decision is the caller's
 	}
-	return t.interesting(sf, 0) || isParamPredicate(sf)
+	return t.interesting(sf, 0) || isParamPredicate(sf) || isParamDecision(sf)
 }
 
 // isSmallPredicate: a bool function without calls and with at most three
@@ -1098,6 +1104,30 @@ func isSmallPredicate(f *ssa.Function) bool {
 		return false
 	}
 	return len(callsIn(f)) == 0
+}
+
+// isParamDecision: a bool function without calls whose every branch tests
+// its parameters against constants (`switch s { case a, b: return true }`).
+func isParamDecision(g *ssa.Function) bool {
+	res := g.Signature.Results()
+	if res.Len() != 1 || len(g.Blocks) < 2 || len(g.Blocks) > 16 || len(callsIn(g)) > 0 {
+		return false
+	}
+	if b, ok := res.At(0).Type().Underlying().(*types.Basic); !ok || b.Kind() != types.Bool {
+		return false
+	}
+	var self []ssa.Value
+	for _, prm := range g.Params {
+		self = append(self, prm)
+	}
+	for _, in := range instrsOf(g) {
+		if i, ok := in.(*ssa.If); ok {
+			if _, pure := substParams(g, self, i.Cond, 0); !pure {
+				return false
+			}
+		}
+	}
+	return true
 }
 
 // isParamPredicate: a one-block function returning a boolean expression over
